@@ -2,6 +2,7 @@
    Only the property theorems, each closed by [exact] of a lemma. *)
 From Coq Require Import List.
 Require Import BertE.Model.Git BertE.Model.Flow BertE.Proofs.GitProofs BertE.Proofs.FlowProofs BertE.Proofs.C03Proofs.
+Require Import BertE.Model.Queues BertE.Proofs.QueueProofs.
 Import ListNotations.
 
 (* Queue merge: for any commit graph and any selection satisfying the queue invariants that
@@ -46,3 +47,17 @@ Theorem C03_fast_forward :
   apply_merge s h srcs = (s, r).
 Proof. exact apply_merge_ff_general. Qed.
 Print Assumptions C03_fast_forward.
+
+(* The same without assuming the queue invariants: from a well-formed queue description (QueuesWF, which
+   Bert-E's queueing steps establish and preserve - see C01_queue_cycle), after any number of queueing steps,
+   merging the pull requests of rank <= k whose newest selected queue commit on every version is green puts
+   every moved destination on a green commit and moves nothing else. *)
+Theorem C03_queue_cycle_green :
+  forall (later : name -> name -> Prop) (green : cid -> Prop) c qs c1 qs1 k,
+  wf_clone c -> Incl later c -> QueuesWF later c qs -> queue_adds later c qs c1 qs1 ->
+  (forall d q, In (d, q) (sel_of k qs1) -> tip_green green c1 q) ->
+  exists c2, merge_queues c1 (sel_of k qs1) = Some c2 /\
+  (forall d q, In (d, q) (sel_of k qs1) -> tip_green green c2 d) /\
+  (forall n, ~ In n (map fst (sel_of k qs1)) -> lookup (refs c2) n = lookup (refs c1) n).
+Proof. exact queue_cycle_green. Qed.
+Print Assumptions C03_queue_cycle_green.
